@@ -51,14 +51,14 @@ CLAIMED['C16'] = dict(
 )
 
 CLAIMED['C08'] = dict(
-  category='translation_validation',
+  category='exploration',
   technique='runtime monitoring / differential translation validation: PRNG and enumerated AuthorizationPolicy sets (each passed through the real validator) are translated by the real authz builder; an Envoy RBAC interpreter over the emitted filters and an independent policy-semantics evaluator over the API objects decide generated requests (literals and near misses, HTTP and raw TCP); decisions must agree, one-sided only where the property allows stricter',
   text='Held (up to two listed root causes) on every (policy set, workload, request) evaluated: thousands of policy sets and a 4172-case single-field sweep, millions of request decisions per run, 830 field x form x action x protocol combinations, sidecars and gateways, root-namespace and selector scoping, trust-domain aliases, JWT claims, path templates. Disagreements are shrunk and keyed by a named root-cause hypothesis or by direction+protocol+field:form.',
   note='Trusted: reference policy evaluator (our reading of the AuthorizationPolicy API docs; combinations the docs leave open are three-valued and not judged), the Envoy RBAC interpreter (36 matcher kinds; unknown kinds => inconclusive), Go regexp for safe_regex. Not generated: experimental filters, targetRef/waypoint attachment, IPv4-mapped IPv6, query strings, multi-wildcard values.',
 )
 
 CLAIMED['C12'] = dict(
-  category='translation_validation',
+  category='exploration',
   technique='runtime monitoring / differential translation validation: PRNG worlds of services, subsets, Gateways and validated VirtualServices are translated by the real route generator for sidecar and gateway proxies; an Envoy RouteConfiguration interpreter over the emitted routes and an independent VirtualService evaluator over the API objects decide witness requests (literals and near misses) on the route configuration the listener port actually references; outcomes must agree',
   text='Held (up to two listed deviations) on every (world, proxy, request) asserted: thousands of worlds, hundreds of thousands of requests in thorough; 174 match-field x form x action x proxy-type combinations; rule order and later-rule decisions exercised (about half of rule-decided requests are decided by a later rule); gateway merging across VirtualServices and the sidecar no-merge rule checked existentially; situations the API reference leaves open are counted and not asserted. Disagreements are minimised and keyed by a named deviation hypothesis or structurally.',
   note='Trusted: the VirtualService evaluator (our reading of the networking API reference), the Envoy route interpreter (38 constructs; unknown => inconclusive), Go regexp as RE2. Not generated: delegates, TLS gateway servers, exportTo/Sidecar scoping, destinations outside the registry, multi-port destinations without port, redirect port rewriting subtleties.',
